@@ -165,10 +165,12 @@ def _run1(fn, start, env, stop_pred, P, call_value, max_steps, exit_blocks, fork
 
     visited = budget[1] if len(budget) > 1 else None
     notable = budget[2] if len(budget) > 2 else None
+    first_block = True
     while True:
         blk = fn.blocks[bid]
-        if bid in exit_blocks or bid == fn.exit:
+        if (bid in exit_blocks and not (first_block and idx > 0)) or bid == fn.exit:
             return Outcome("exit", bid, env, trace)
+        first_block = False
         if visited is not None and idx == 0:
             try:
                 fp = (bid, frozenset(env.items()))
